@@ -264,6 +264,40 @@ func c01Type(c *rt.Ctx, k int) (reflect.Type, string) {
 	return gen.Type(rt.FixedRNG("C01type", c.Idx*4096+k), 3, o)
 }
 
+// c01Positions drives one member kind through every member-position struct type (gen.PositionTypes)
+// and four value modes, all configurations and presentations.
+func c01Positions(c *rt.Ctx, kind gen.PositionKind, monitor string) {
+	r := c.RNG(77)
+	nz := func(v reflect.Value) {
+		for try := 0; try < 20; try++ {
+			gen.Fill(r, v, 2, gen.ValOpts{RoundTrip: true})
+			if !v.IsZero() {
+				return
+			}
+		}
+	}
+	sub := 5000
+	for _, pt := range gen.PositionTypes(kind) {
+		for _, v := range gen.PositionValues(pt, kind, nz) {
+			if !c.Cur(sub, curDesc(pt.T, "", v.Interface(), "")) {
+				sub++
+				continue
+			}
+			for pi, p := range presentations(v) {
+				for ci := range encCfgs {
+					if pi > 0 && ci != 0 && ci != 1+(sub+pi)%4 {
+						continue
+					}
+					encCompare(c, sub, monitor, &encCfgs[ci], p.name, p.x, p.t, p.v, "")
+				}
+			}
+			c.NonTrivial(pt.T.String(), stdRender(v.Interface()))
+			sub++
+		}
+	}
+	c.Obs("member_position_cases:"+kind.Name, int64(sub-5000))
+}
+
 func init() {
 	register(&Prop{
 		ID: "C01",
@@ -276,6 +310,9 @@ func init() {
 		Run: func(c *rt.Ctx) {
 			per := 48
 			rv := c.RNG(0)
+			if c.Idx%8 == 3 {
+				c01Positions(c, gen.PositionKinds[(c.Idx/8)%len(gen.PositionKinds)], "enc-diff")
+			}
 			for k := 0; k < per; k++ {
 				t, feat := c01Type(c, k)
 				vo := gen.ValOpts{NilHeavy: k%3 == 0}
